@@ -20,6 +20,12 @@ mod shared_state;
 #[cfg(feature = "i-implement-a-third-party-backend-and-opt-into-breaking-changes")]
 pub use shared_state::{ConnectionState, SharedState};
 
+#[cfg(all(
+    h3_verif,
+    feature = "i-implement-a-third-party-backend-and-opt-into-breaking-changes"
+))]
+pub use shared_state::verif;
+
 pub mod error;
 
 #[cfg(feature = "i-implement-a-third-party-backend-and-opt-into-breaking-changes")]
